@@ -381,6 +381,14 @@ EXTRA_CLI = [
                 'static int chk_a = %sa, chk_b = %sb, chk_c = %sc, chk_d = sizeof(%st1), chk_e = sizeof(%st2), chk_f = sizeof(struct %ss1), chk_g = sizeof(struct %ss2);\n'
                 'void f(void) { enum { %sb = 200 }; static int chk_h = %sa, chk_i = %sb; }\n' % ((P,) * 17))('p' * 70),
      [('chk_a', 11), ('chk_b', 22), ('chk_c', 33), ('chk_d', 3), ('chk_e', 5), ('chk_f', 7), ('chk_g', 9), ('chk_h', 11), ('chk_i', 200)]),
+    # the scope of an enumeration constant begins after its enumerator (its own initialiser still sees the outer entity)
+    ('enum { A = 5 }; void f(void) { enum { A = A + 1, B = A + 1 }; static int chk_a = A; static int chk_b = B; }\n'
+     'char C[10]; void g(void) { enum { C = sizeof(C) * 2 }; static int chk_c = C; }\nint x = 3; void h(void) { int x = sizeof(x) + 10; { enum { x = sizeof(x) }; static int chk_d = x; } }\n',
+     [('chk_a', 6), ('chk_b', 7), ('chk_c', 20), ('chk_d', 4)]),
+    # after a complete type specifier (typedef name, struct, _Bool) the next identifier is the declarator, even if it names a typedef
+    ('typedef int T; typedef long U; void f(void) { U T; static int chk_a = sizeof(T); }\nstruct S { char c[3]; }; typedef char V;\n'
+     'void g(void) { struct S V; _Bool T; static int chk_b = sizeof(V) * 10 + sizeof(T); }\nint h(U T) { return T; }\nstruct M { U T; V V; }; static int chk_c = sizeof(struct M);\n',
+     [('chk_a', 8), ('chk_b', 31), ('chk_c', 16)]),
     # block-scope extern / function declarations find the visible file-scope entity through the intermediate scopes (6.2.2p4)
     ('static int counter = 5; static int helper(int x) { return x; }\n'
      'int f(int p) { extern int counter; int helper(int); { extern int counter; { int helper(int); return helper(counter + p); } } }\nstatic int chk_a = sizeof(counter);\n',
